@@ -4,6 +4,8 @@ from checks import pipeseq as ps
 
 OPN = {0: "P:set_flow_def(block.)", 1: "P:set_flow_def(block.other.)", 2: "P:input", 3: "P:flush", 4: "P:release(qsink)", 5: "A:release(qsrc handle)",
        7: "C:worker", 8: "C:oob", 9: "P:watcher", 10: "P:set_output(qsink,S1)", 11: "P:set_output(qsink,NULL)",
+       21: "arm: consumer worker before the next queue push", 22: "arm: consumer worker before the 2nd push from now", 23: "arm: ... 3rd push", 24: "arm: ... 4th push",
+       26: "arm: producer watcher before the next queue pop", 27: "arm: ... 2nd pop", 28: "arm: ... 3rd pop", 29: "arm: ... 4th pop",
        12: "P:register request", 13: "P:unregister request", 14: "C:provider answers", 15: "P:oob", 16: "P:set+get max_length", 17: "all getters"}
 
 CLAIM = {
@@ -19,9 +21,10 @@ CLAIM = {
             "holds and later delivers instead of dropping (everything sent has arrived once the loops are quiescent, unless flush was "
             "called); end-of-source is signalled once and only after the last buffer; both pipes die exactly once, every watcher is "
             "freed, every reference on the outputs is returned and nothing leaks (CBMC memory-leak check).",
-    "note": "PARTIAL claim. Covered: the queue part of C06 at callback granularity. NOT covered (outside the claim): interleavings "
-            "finer than a callback (a consumer callback running between two queue operations of one producer call; the queue's own "
-            "operations under arbitrary interleavings are C07 / C08's subject), data races between the two threads on non-atomic "
+    "note": "PARTIAL claim. Covered: the queue part of C06 at callback granularity. Finer than a callback, a family of schedules nests ONE callback of the "
+            "other thread before the k-th queue push / pop of a call (the pipes' uqueue_push / uqueue_pop go through harness wrappers around "
+            "the real inline functions). NOT covered (outside the claim): other interleavings inside a callback (both threads inside "
+            "multi-operation callbacks at once; the queue's own operations under arbitrary interleavings are C07 / C08's subject), data races between the two threads on non-atomic "
             "fields, upipe_transfer / upipe_worker / uprobe_transfer / upipe_pthread_transfer (thread affinity of transferred pipes), "
             "queue lengths above 2. The schedule is enumerated by the driver, not symbolic: one symbolic scheduling step already gave no "
             "verdict in 600 s (and CBMC's --paths mode did not finish 2000 paths in 15 min). Hook: UPIPE_VERIF_OOB_QUEUES shortens the "
@@ -86,6 +89,22 @@ def build(tier):
                 plan += [(nm, ln, s) for s in schedules(SCRIPTS[nm], BURSTS, 1)]
                 plan += [(nm, ln, SCRIPTS[nm])] + [(nm, ln, s) for s in schedules(SCRIPTS[nm], BURSTS[:4] if (ln == 1 and nm in ("stream", "newdef")) else BURSTS[:2], 2)]
         plan += [("stream", 1, s) for s in schedules(SCRIPTS["stream"], BURSTS[:2], 3)][::2]
+    # finer than a callback: a consumer worker nested before the k-th queue push of a producer call (21-24), a producer watcher
+    # nested before the k-th pop of a consumer callback / of the teardown drains (26-29)
+    def armed(script, arms):
+        out = []
+        for pos in range(1, len(script)):
+            for a in arms:
+                out.append(script[:pos] + [a] + script[pos:])
+        return out
+    if quick:
+        plan += [("nested", 1, s) for s in armed(SCRIPTS["stream"], [22])] + [("nested", 2, s) for s in armed(SCRIPTS["newdef"], [22, 23])[::2]] + \
+                [("nested", 1, [0, 2, 7, 9, 22, 2, 2, 4]), ("nested", 2, [0, 2, 2, 27, 4]), ("nested", 1, [0, 2, 2, 2, 26, 4]), ("nested", 1, [0, 2, 9, 27, 2, 4])]
+    else:
+        for nm in ("stream", "newdef", "flush"):
+            for ln in (1, 2):
+                plan += [("nested", ln, s) for s in armed(SCRIPTS[nm], [21, 22, 23, 26, 27])]
+        plan += [("nested", 1, s) for s in schedules([0, 22, 2, 2, 4], BURSTS[:3], 1)] + [("nested", 2, s) for s in schedules([0, 2, 23, 2, 27, 4], BURSTS[:3], 1)]
     for i, (nm, ln, ops) in enumerate(plan):
         name = "queue_%s_len%d_%s" % (nm, ln, "-".join(map(str, ops)))
         if name in seen:
@@ -100,6 +119,6 @@ def build(tier):
                             "event loop = upump_mock.h over the real upump_common.c; a callback runs only when its watcher is active and its descriptor readable",
                             "granularity: one callback / API call is one atomic step",
                             "hook UPIPE_VERIF_OOB_QUEUES=4 (out-of-band queues of 4 slots instead of 255)"] + ps.COMMON_ASSUME[1:3],
-            "outside": ["interleavings inside a callback", "data races on non-atomic fields", "upipe_transfer / upipe_worker / uprobe_transfer / pthread transfer",
+            "outside": ["interleavings inside a callback other than one nested callback at a queue operation", "data races on non-atomic fields", "upipe_transfer / upipe_worker / uprobe_transfer / pthread transfer",
                         "queue lengths above 2", "requests across the queue (C12)"]}
     return qs, meta
